@@ -45,6 +45,9 @@ NatExpect(s) ==
         ELSE IF cc \in CodeCountries THEN "unsettled"   \* an algorithm this specification does not know
         ELSE "accept"                                  \* countries without a national algorithm: unaffected
 
+\* the event re-validates a text that the library returned from generate / random ("from" names the call)
+Built(e) == "from" \in DOMAIN e /\ e.from \in {"iban.generate", "iban.random", "bban.from_components", "bban.random"}
+
 IbanNatOutcome(e) ==
     LET s == Clean(e.t)
         valid == ValidClean(Table, s)
@@ -53,6 +56,9 @@ IbanNatOutcome(e) ==
         ELSE IF ~e.vb THEN "ok"                      \* without the flag: TraceCalls judges
         ELSE IF ~e.judge \/ Unsettled(Table, e.t) THEN "ok"
         ELSE IF ~valid THEN (IF e.out.k = "ok" THEN "national-validation-accepted-an-invalid-iban" ELSE "ok")
+        \* C09, first half, needs no oracle: an IBAN the library itself built or drew in a country that
+        \* keeps computed check digits passes national validation (computing and validating agree)
+        ELSE IF Built(e) /\ CountryKey(s) \in NatComputing /\ e.out.k = "exc" THEN "built-iban-fails-national-validation"
         ELSE IF x = "unsettled" THEN "ok"
         ELSE IF x = "accept" /\ e.out.k = "exc" THEN "rejected-but-nationally-valid"
         ELSE IF x = "reject" /\ e.out.k = "ok" THEN "accepted-but-nationally-invalid"
